@@ -98,8 +98,8 @@ Definition str4_ok (s : list N) : Prop := nul_free s /\ vlen s < cNPOS.
 Lemma wr_str4_eq : forall s, vlen s < 4294967296 -> wr_str4 s = le_bytes 4 (vlen s) ++ s.
 Proof.
   intros. unfold wr_str4, wr_nistring. cbn [fst].
-  replace (256 ^ N.of_nat 4) with 4294967296 by reflexivity.
-  rewrite N.mod_small by assumption. rewrite firstn_vlen. rewrite app_nil_r. reflexivity.
+  replace (256 ^ N.of_nat 4 - 1) with 4294967295 by reflexivity.
+  destruct (4294967295 <? vlen s) eqn:E; [lia|]. rewrite app_nil_r. reflexivity.
 Qed.
 
 Lemma rd_wr_str4 : forall s r, str4_ok s -> rd_nistring 4 (wr_str4 s ++ r) = Ok (s, r).
@@ -112,17 +112,45 @@ Proof.
   rewrite take_n_app. rewrite cstr_nul_free by assumption. reflexivity.
 Qed.
 
-(* the 1-byte-sized, zero-terminated strings of the Bethesda header *)
+(* the 1-byte-sized, zero-terminated strings of the Bethesda header: Write cuts them to 254
+   characters, the longest string whose size (with the terminator) fits the prefix *)
+Definition clip1 (s : list N) : list N := firstn 254 s.
 Definition str1_ok (s : list N) : Prop := nul_free s /\ vlen s < 255.
+
+Lemma clip1_short : forall s, vlen s < 255 -> clip1 s = s.
+Proof. intros. unfold clip1. apply firstn_all2. unfold vlen in H. lia. Qed.
+
+Lemma clip1_len : forall s, vlen (clip1 s) < 255.
+Proof. intros. unfold clip1, vlen. rewrite firstn_length. lia. Qed.
+
+Lemma Forall_firstn_N : forall (P : N -> Prop) n l, Forall P l -> Forall P (firstn n l).
+Proof. induction n; intros l H; simpl; [constructor|]. destruct H; constructor; auto. Qed.
+
+Lemma clip1_nul_free : forall s, nul_free s -> nul_free (clip1 s).
+Proof. intros. unfold clip1, nul_free. apply Forall_firstn_N. assumption. Qed.
+
+Lemma clip1_ok : forall s, nul_free s -> str1_ok (clip1 s).
+Proof. intros. split; [apply clip1_nul_free; assumption|apply clip1_len]. Qed.
+
+Lemma clip1_idem : forall s, clip1 (clip1 s) = clip1 s.
+Proof. intros. apply clip1_short. apply clip1_len. Qed.
+
+Lemma wr_str1_any : forall s,
+  wr_nistring 1 true s = (le_bytes 1 (vlen (clip1 s) + 1) ++ clip1 s ++ [0], clip1 s).
+Proof.
+  intros. unfold wr_nistring.
+  replace (256 ^ N.of_nat 1 - 1 - 1) with 254 by reflexivity.
+  destruct (254 <? vlen s) eqn:E.
+  - replace (N.to_nat 254) with 254%nat by reflexivity. reflexivity.
+  - rewrite clip1_short by lia. reflexivity.
+Qed.
 
 Lemma wr_str1_eq : forall s, vlen s < 255 ->
   wr_nistring 1 true s = (le_bytes 1 (vlen s + 1) ++ s ++ [0], s).
-Proof.
-  intros. unfold wr_nistring.
-  replace (256 ^ N.of_nat 1) with 256 by reflexivity.
-  rewrite (N.mod_small (vlen s)) by lia. rewrite (N.mod_small (vlen s + 1)) by lia.
-  rewrite firstn_vlen. reflexivity.
-Qed.
+Proof. intros. rewrite wr_str1_any. rewrite clip1_short by assumption. reflexivity. Qed.
+
+Lemma wr_str1_clip : forall s, wr_nistring 1 true (clip1 s) = wr_nistring 1 true s.
+Proof. intros. rewrite !wr_str1_any. rewrite clip1_idem. reflexivity. Qed.
 
 Lemma rd_wr_str1 : forall s r, str1_ok s ->
   rd_nistring 1 (fst (wr_nistring 1 true s) ++ r) = Ok (s, r) /\ snd (wr_nistring 1 true s) = s.
@@ -131,9 +159,16 @@ Proof.
   rewrite <- app_assoc. unfold rd_nistring.
   rewrite rd_uint_le by (change (256 ^ N.of_nat 1) with 256; lia).
   cbn [bind]. replace (Nat.eqb 1 4) with false by reflexivity. cbn [andb].
-  replace ((s ++ [0]) ++ r) with ((s ++ [0]) ++ r) by reflexivity.
   rewrite take_n_app_len by (rewrite vlen_app; reflexivity).
   rewrite cstr_app0 by assumption. reflexivity.
+Qed.
+
+(* for a string of ANY length: what is read back is what Write left in memory, the first 254
+   characters *)
+Lemma rd_wr_str1_any : forall s r, nul_free s ->
+  rd_nistring 1 (fst (wr_nistring 1 true s) ++ r) = Ok (clip1 s, r) /\ snd (wr_nistring 1 true s) = clip1 s.
+Proof.
+  intros s r Hn. rewrite <- wr_str1_clip. apply rd_wr_str1. apply clip1_ok. assumption.
 Qed.
 
 (* ---- tables ---- *)
